@@ -1273,6 +1273,69 @@ def ptr1(units, R, fn_name='get_item_from_pointer'):
     R.floor('PTR1', 'returning paths of the pointer resolver', n, 1)
 
 
+# ---- ESC5: a decoded character is not taken for the beginning of another escape sequence ------------------------------------------
+
+def esc5(units, R, unit_names=('cJSON_Utils.c',), floor=0):
+    """RFC 6901 section 4: "~01" decodes to "~1", not to "/" - the '~' that "~0" stands for is data.  In a decoder that finds the next
+    sequence with a search (p = strchr(p + k, '~')) and writes the decoded character at p[j], the search has to resume behind that
+    character whenever it can be the character searched for: k > j.  (The byte-by-byte decoder of the pinned tree has no such
+    search; TAB9 evaluates it.)"""
+    from ..dataflow import access
+    n = 0
+    for un in unit_names:
+        u = units[un]
+        for fn in u.function_list:
+            if fn.body is None:
+                continue
+            searches = []
+            for a in assignments(fn):
+                r = strip_casts(a['r'])
+                if a['op'] != '=' or not is_ref(a['l']) or r.get('k') != 'call' or callee_name(r) not in ('strchr', 'memchr', '__builtin_strchr', '__builtin_memchr'):
+                    continue
+                p = strip_casts(a['l'])
+                e = strip_casts(r['args'][0])
+                k = 0
+                while e.get('k') == 'bin' and e['op'] in ('+', '-') and const_val(e['r']) is not None:
+                    k += const_val(e['r']) if e['op'] == '+' else -const_val(e['r'])
+                    e = strip_casts(e['l'])
+                ch = const_val(r['args'][1])
+                if e.get('k') == 'ref' and e.get('d') == p['d'] and ch is not None:
+                    searches.append((a, p, k, ch))
+            if not searches:
+                continue
+            cfg = fn.cfg()
+            for (a, p, k, ch) in searches:
+                an = cfg.node_of_expr(a['id'])
+                if an is None or an.id not in cfg.reachable(an.id):
+                    continue        # not in a loop
+                cyc = cfg.reachable(an.id) & cfg.reachable(an.id, forward=False)
+                stores = []
+                for m in cyc:
+                    for ev in node_effects(cfg.nodes[m]):
+                        if ev.kind != 'store' or ev.node.get('op') != '=':
+                            continue
+                        acc = access(ev.lhs) if strip_casts(ev.lhs).get('k') in ('idx', 'un') else None
+                        if acc is None or not isinstance(acc[1], int):
+                            continue
+                        b = strip_casts(acc[0])
+                        j = acc[1]
+                        while b.get('k') == 'bin' and b['op'] in ('+', '-') and const_val(b['r']) is not None:
+                            j += const_val(b['r']) if b['op'] == '+' else -const_val(b['r'])
+                            b = strip_casts(b['l'])
+                        if b.get('k') == 'ref' and b.get('d') == p['d']:
+                            stores.append((ev.node, j, const_val(ev.node['r'])))
+                if not stores:
+                    continue
+                n += 1
+                bad = [(st, j, v) for (st, j, v) in stores if (v is None or v == ch) and k <= j]
+                R.ob('ESC5', fn, a, 'the search for the next %r resumes behind the character that was just decoded' % chr(ch), not bad,
+                     'resumes at %s%+d, every decoded character lies in front of that' % (p['n'], k) if not bad else
+                     '%s writes %s at %s[%d] and the search resumes at %s%+d: a decoded %r is taken for the beginning of another '
+                     'sequence ("~01" becomes "/")' % (expr_str(bad[0][0])[:40], repr(chr(bad[0][2])) if bad[0][2] is not None else 'a character',
+                                                      p['n'], bad[0][1], p['n'], k, chr(ch)), key='resume:%s' % fn.name)
+    R.floor('ESC5', 'search-driven decoders', n, floor)
+
+
 # ---- ESC4: a decoded name is not read as a token again --------------------------------------------------------------------------
 
 def esc4(units, R, floor=1):
